@@ -108,6 +108,15 @@ var ruleSelect = &Rule{
 						continue // only sequences of items ([]any)
 					}
 					n++
+					// what is subscripted is the array itself: the item asserted
+					// to be a []any, or the one-element wrap of lax mode — not a
+					// sequence some function made of the item (an object's
+					// values, say)
+					if why := p.notTheArrayItself(ia.X, 0); why != "" {
+						out.viol(fnName(fn)+": the subscripted sequence is the array itself", p.pos(ia.Pos()), fnName(fn), "the sequence the subscripts select from is "+why+": a subscript applied to something that is no array then selects from whatever that yields instead of failing (strict) or wrapping the item (lax)")
+					} else {
+						out.ok(fnName(fn)+": the subscripted sequence is the array itself", p.pos(ia.Pos()), fnName(fn), "the item asserted to []any, or its one-element wrap")
+					}
 					key := fnName(fn) + ": element selected by position"
 					var bad []string
 					for _, b2 := range fn.Blocks {
@@ -190,8 +199,35 @@ var ruleLast = &Rule{
 		}
 		// field stored with len(array)
 		var sizeField *types.Var
+		// where a length is recorded: a store into an Executor field, or a
+		// call of a helper that stores that argument into one
+		// (`defer exec.tempSetInnermostArraySize(len(array))()`)
+		type sizeRec struct {
+			Field *types.Var
+			Store ssa.Instruction
+			Val   ssa.Value
+		}
+		var recs []sizeRec
 		for _, s := range p.execStores(sub) {
-			v := s.Store.Val
+			recs = append(recs, sizeRec{s.Field, s.Store, s.Store.Val})
+		}
+		for _, hc := range p.allCalls(sub) {
+			g := hc.Call.StaticCallee()
+			if g == nil || hc.Call.IsInvoke() || g.Blocks == nil || fnPkgPath(g) != pkgExec || hc.Block() == nil {
+				continue
+			}
+			for _, gs := range p.execStores(g) {
+				if !p.wholeField(gs.Store.Addr) {
+					continue
+				}
+				if k := p.setsFieldFromParam(g, gs.Field); k >= 0 && k < len(hc.Call.Args) {
+					recs = append(recs, sizeRec{gs.Field, hc, hc.Call.Args[k]})
+					break
+				}
+			}
+		}
+		for _, s := range recs {
+			v := s.Val
 			if c, ok := v.(*ssa.Call); ok {
 				if bi, ok := c.Call.Value.(*ssa.Builtin); ok && bi.Name() == "len" {
 					sizeField = s.Field
@@ -223,11 +259,11 @@ var ruleLast = &Rule{
 		// the recorded size is that of the array the subscripts select from:
 		// the very value that is indexed (after lax auto-wrapping), not an
 		// earlier version of it
-		for _, s := range p.execStores(sub) {
+		for _, s := range recs {
 			if s.Field != sizeField {
 				continue
 			}
-			c, ok := s.Store.Val.(*ssa.Call)
+			c, ok := s.Val.(*ssa.Call)
 			if !ok {
 				continue
 			}
@@ -755,7 +791,7 @@ func init() {
 	})
 	addProp(&PropSpec{
 		ID:          "C16",
-		Rules:       []string{"R-METHODTYPES", "R-F2I", "R-FINITE", "R-OVF", "R-TOWER", "R-STATE", "R-RADIX", "R-EMPTYPROD", "R-ERRFIRST", "R-DIGITRANGE", "R-VARSIDENT", "R-JSONNUM", "R-CHECKEDVALUE", "R-OKFLAG"},
+		Rules:       []string{"R-METHODTYPES", "R-F2I", "R-FINITE", "R-OVF", "R-TOWER", "R-STATE", "R-RADIX", "R-EMPTYPROD", "R-ERRFIRST", "R-DIGITRANGE", "R-VARSIDENT", "R-JSONNUM", "R-CHECKEDVALUE", "R-OKFLAG", "R-LAYOUT", "R-ENTRY"},
 		Explanation: "Domains and ranges of the item methods as finite tables and guard discipline: for each of the 12 methods the set of item types that reach the continuation is computed by walking the method with the input type fixed (abstract interpretation) and compared with the documented domain, every other type must leave through a suppressible error; conversions to integers are range-guarded as evaluated in float64; computed doubles are finiteness-checked; integer callbacks cannot wrap; the numeric representations are handled together; no method arm is missing.",
 		Decided: []string{"R-METHODTYPES: accepted-type table of all 12 methods (156 cells) and suppressible rejection", "R-F2I: .integer()/.bigint() conversions are range-safe (2^63 included)",
 			"R-FINITE: .double()/.number()/.decimal() never yield Inf/NaN", "R-OVF: .abs() cannot wrap", "R-TOWER", "R-METHODTYPES also reports a method constant without an arm in the dispatcher"},
@@ -1014,3 +1050,77 @@ func sameNodeValue(a, b ssa.Value) bool {
 }
 
 func init() { register(ruleLitChain) }
+
+// notTheArrayItself: "" when the sequence v is, on every way it can come about,
+// the result of asserting an item (an `any`) to []any, a slice literal whose
+// elements are items as they are (`[]any{value}`), a window of such a
+// sequence, or a []any parameter every call site fills that way; otherwise
+// what else it can be.
+func (p *Prog) notTheArrayItself(v ssa.Value, depth int) string {
+	if depth > 4 {
+		return "not traced"
+	}
+	isAny := func(t types.Type) bool {
+		it, ok := t.Underlying().(*types.Interface)
+		return ok && it.NumMethods() == 0
+	}
+	switch x := v.(type) {
+	case *ssa.Phi:
+		for _, e := range x.Edges {
+			if w := p.notTheArrayItself(e, depth+1); w != "" {
+				return w
+			}
+		}
+		return ""
+	case *ssa.TypeAssert:
+		if isAny(x.X.Type()) {
+			return ""
+		}
+	case *ssa.Extract:
+		if ta, ok := x.Tuple.(*ssa.TypeAssert); ok && x.Index == 0 && isAny(ta.X.Type()) {
+			return ""
+		}
+	case *ssa.Slice:
+		if al, ok := x.X.(*ssa.Alloc); ok {
+			// a composite literal: every element stored is an `any` value as it is
+			for _, r := range *al.Referrers() {
+				ia, ok := r.(*ssa.IndexAddr)
+				if !ok {
+					continue
+				}
+				for _, r2 := range *ia.Referrers() {
+					if st, ok := r2.(*ssa.Store); ok && st.Addr == ssa.Value(ia) {
+						if _, isCall := stripConvPlain(st.Val).(*ssa.Call); isCall {
+							return "a literal holding the result of " + calleeName(&stripConvPlain(st.Val).(*ssa.Call).Call)
+						}
+					}
+				}
+			}
+			return ""
+		}
+		return p.notTheArrayItself(x.X, depth+1)
+	case *ssa.Parameter:
+		fn := x.Parent()
+		nd := p.CG.Nodes[fn]
+		if fn == nil || nd == nil || len(nd.In) == 0 || fn.Object() == nil || fn.Object().Exported() {
+			return "a parameter of " + fnName(fn)
+		}
+		idx := paramIndex(x)
+		for _, e := range nd.In {
+			c, ok := e.Site.(*ssa.Call)
+			if !ok || c.Call.StaticCallee() != fn || idx >= len(c.Call.Args) {
+				return "a parameter filled by a call that is not plain"
+			}
+			if e.Caller.Func == fn {
+				continue // the traversal's own recursion
+			}
+			if w := p.notTheArrayItself(c.Call.Args[idx], depth+1); w != "" {
+				return w
+			}
+		}
+		return ""
+	case *ssa.Call:
+		return "the result of " + calleeName(&x.Call)
+	}
+	return "a " + fmt.Sprintf("%T", v)
+}
